@@ -147,150 +147,7 @@ func checkC02(c *Ctx) {
 	// Every place that decides parenthesisation by looking for AND/OR in the raw SQL text of some
 	// subject expression must do so for both raw unit types (Expr and NamedExpr) of that subject,
 	// and must look for both connectives.
-	rs := c.Rule("C02.siblings", "each parenthesisation decision covers both raw unit types (Expr, NamedExpr) of its subject and both connectives (AND, OR)", 4)
-	exprT := p.Named(pkgClause, "Expr")
-	nexprT := p.Named(pkgClause, "NamedExpr")
-	exprSQL := p.Field(exprT, "SQL")
-	nexprSQL := p.Field(nexprT, "SQL")
-	andC := p.Lookup(pkgClause, "AndWithSpace")
-	orC := p.Lookup(pkgClause, "OrWithSpace")
-	readsSQL := func(fn *ssa.Function) (bool, bool) {
-		e, n := false, false
-		forEachInstr(fn, func(owner *ssa.Function, in ssa.Instruction) {
-			switch x := in.(type) {
-			case *ssa.Field:
-				fv := fieldVar(x.X.Type(), x.Field)
-				e = e || fv == exprSQL
-				n = n || fv == nexprSQL
-			case *ssa.FieldAddr:
-				fv := fieldVar(x.X.Type(), x.Field)
-				e = e || fv == exprSQL
-				n = n || fv == nexprSQL
-			}
-		})
-		return e, n
-	}
-	type group struct {
-		f        *FuncSrc
-		subject  string
-		pos      token.Pos
-		expr, nm bool
-		and, or  bool
-	}
-	groups := map[string]*group{}
-	for _, f := range p.FuncsOf(pkgClause) {
-		if f.Parent != nil || f.Obj == nil {
-			continue
-		}
-		info := f.Pkg.TypesInfo
-		parents := parentMap(f.Body)
-		for _, call := range callsIn(f) {
-			if calleeName(info, call) != "strings.Contains" || len(call.Args) != 2 {
-				continue
-			}
-			cid := identOf(call.Args[1])
-			if cid == nil || (info.Uses[cid] != andC && info.Uses[cid] != orC) {
-				continue
-			}
-			// the raw text inspected: follow locals to <x>.SQL or to a helper result
-			var subject string
-			var cov struct{ e, n bool }
-			var follow func(e ast.Expr, depth int)
-			follow = func(e ast.Expr, depth int) {
-				if depth > 6 || e == nil {
-					return
-				}
-				e = unparen(e)
-				switch x := e.(type) {
-				case *ast.CallExpr:
-					name := calleeName(info, x)
-					if strings.HasPrefix(name, "strings.") && len(x.Args) >= 1 {
-						follow(x.Args[0], depth+1)
-						return
-					}
-					// helper of the package returning the raw text of its argument
-					if fn, _ := typeutil.Callee(info, x).(*types.Func); fn != nil && fn.Pkg() != nil && fn.Pkg().Path() == pkgClause && len(x.Args) == 1 {
-						he, hn := readsSQL(p.SSAFunc(fn))
-						cov.e, cov.n = cov.e || he, cov.n || hn
-						subject = canon(info, x.Args[0])
-					}
-				case *ast.Ident:
-					for _, d := range localDefs(f, x.Name, call.Pos()) {
-						follow(d.rhs, depth+1)
-					}
-				case *ast.SelectorExpr:
-					if x.Sel.Name != "SQL" {
-						return
-					}
-					isE, isN := fieldSel(info, x, exprSQL), fieldSel(info, x, nexprSQL)
-					holder, ok := unparen(x.X).(*ast.Ident)
-					if !ok || (!isE && !isN) {
-						return
-					}
-					// how was the holder bound?
-					for _, d := range localDefs(f, holder.Name, call.Pos()) {
-						if ta, ok := unparen(d.rhs).(*ast.TypeAssertExpr); ok && ta.Type != nil {
-							subject = canon(info, ta.X)
-							cov.e, cov.n = cov.e || isE, cov.n || isN
-						}
-					}
-					if subject == "" {
-						// bound by a type switch clause
-						for cur := parents[call]; cur != nil; cur = parents[cur] {
-							if ts, ok := cur.(*ast.TypeSwitchStmt); ok {
-								if as, ok := ts.Assign.(*ast.AssignStmt); ok && len(as.Lhs) == 1 {
-									if id, ok := as.Lhs[0].(*ast.Ident); ok && id.Name == holder.Name {
-										if ta, ok := unparen(as.Rhs[0]).(*ast.TypeAssertExpr); ok {
-											subject = canon(info, ta.X) + "@switch" + itoa(int(ts.Pos()))
-											cov.e, cov.n = cov.e || isE, cov.n || isN
-										}
-									}
-								}
-							}
-						}
-					}
-				}
-			}
-			follow(call.Args[0], 0)
-			if subject == "" {
-				rs.Unknown(f.Name(), "decision site", call.Pos(), "cannot determine whose SQL text is inspected")
-				continue
-			}
-			// sites on the same subject inside the same innermost case clause belong together; a type switch on
-			// the subject itself groups its raw-type clauses
-			key := f.Name() + "|" + subject
-			if !strings.Contains(subject, "@switch") {
-				for cur := parents[call]; cur != nil; cur = parents[cur] {
-					if cc, ok := cur.(*ast.CaseClause); ok {
-						key += "|case@" + itoa(int(cc.Pos()))
-						break
-					}
-				}
-			}
-			g := groups[key]
-			if g == nil {
-				g = &group{f: f, subject: strings.Split(subject, "@switch")[0], pos: call.Pos()}
-				groups[key] = g
-			}
-			g.expr, g.nm = g.expr || cov.e, g.nm || cov.n
-			if info.Uses[cid] == andC {
-				g.and = true
-			} else {
-				g.or = true
-			}
-		}
-	}
-	var keys []string
-	for k := range groups {
-		keys = append(keys, k)
-	}
-	sort.Strings(keys)
-	for _, k := range keys {
-		g := groups[k]
-		c.Touch(g.f)
-		rs.Check(g.expr && g.nm, g.f.Name(), "raw unit types of "+g.subject, g.pos, "decides on Expr.SQL and NamedExpr.SQL alike", "the decision whether to parenthesise "+g.subject+" looks for AND/OR in its raw text only for "+rawKinds(g.expr, g.nm)+": the other raw form (named arguments vs ?) of the same unit is rendered without parentheses and neighbouring AND/OR/NOT bind to part of it")
-		rs.Check(g.and && g.or, g.f.Name(), "connectives looked for in "+g.subject, g.pos, "both AND and OR", "the parenthesisation decision for "+g.subject+" looks for only one of AND/OR in the raw text: a unit containing the other connective is not grouped")
-	}
+	checkParenDecisions(c, c.Rule("C02.siblings", "each parenthesisation decision covers both raw unit types (Expr, NamedExpr) of its subject, both connectives (AND, OR), on an upper-cased copy of the text", 4))
 
 	// ---- C02.not-members ----
 	rnm := c.Rule("C02.not-members", "NotConditions.Build decides per member: every NegationExpressionBuilder test is applied to the range variable of a loop over all members", 2)
@@ -330,6 +187,7 @@ func checkC02(c *Ctx) {
 	// ---- C02.empty ----
 	checkC02Negation(c)
 	checkC02PkSources(c)
+	checkC02OperatorFixed(c)
 	checkRegroupScans(c, c.Rule("C02.regroup-scan", "lone-OR regrouping before a library condition scans all members of the WHERE clause", 2))
 	checkPresizedAppend(c, c.Rule("C02.presized-append", "slices created with make([]T, n) are filled by index, never appended to (IN lists without leading NULLs)", 2))
 	checkEmptyForms(c, c.Rule("C02.empty", "empty condition forms add no clause (same rule as C09.empty)", 14))
@@ -351,3 +209,219 @@ func identOf(e ast.Expr) *ast.Ident {
 }
 
 var _ = types.Universe
+
+// checkParenDecisions: the parenthesisation decisions of package clause (C02.siblings; instantiated for C08 as
+// C08.raw-grouping because the soft-delete filter is ANDed next to exactly these units).
+func checkParenDecisions(c *Ctx, rs *Rule) {
+	p := c.P
+	exprT := p.Named(pkgClause, "Expr")
+	nexprT := p.Named(pkgClause, "NamedExpr")
+	exprSQL := p.Field(exprT, "SQL")
+	nexprSQL := p.Field(nexprT, "SQL")
+	andC := p.Lookup(pkgClause, "AndWithSpace")
+	orC := p.Lookup(pkgClause, "OrWithSpace")
+	readsSQL := func(fn *ssa.Function) (bool, bool) {
+		e, n := false, false
+		forEachInstr(fn, func(owner *ssa.Function, in ssa.Instruction) {
+			switch x := in.(type) {
+			case *ssa.Field:
+				fv := fieldVar(x.X.Type(), x.Field)
+				e = e || fv == exprSQL
+				n = n || fv == nexprSQL
+			case *ssa.FieldAddr:
+				fv := fieldVar(x.X.Type(), x.Field)
+				e = e || fv == exprSQL
+				n = n || fv == nexprSQL
+			}
+		})
+		return e, n
+	}
+	type group struct {
+		f        *FuncSrc
+		subject  string
+		pos      token.Pos
+		expr, nm bool
+		and, or  bool
+		folded   bool // every inspection works on a case-normalised copy of the text
+		sites    int
+	}
+	groups := map[string]*group{}
+	// helpers: package functions that look for a connective in (a normalisation of) one of their string parameters;
+	// the decision is then made where they are called, on the argument passed
+	type helperUse struct {
+		param  int
+		conn   types.Object
+		folded bool
+	}
+	helpers := map[*types.Func][]helperUse{}
+	paramIndex := func(f *FuncSrc, id *ast.Ident) int {
+		if f.Decl == nil || f.Decl.Type.Params == nil {
+			return -1
+		}
+		obj := f.Pkg.TypesInfo.Uses[id]
+		i := 0
+		for _, fl := range f.Decl.Type.Params.List {
+			for _, nm := range fl.Names {
+				if f.Pkg.TypesInfo.Defs[nm] == obj && obj != nil {
+					return i
+				}
+				i++
+			}
+		}
+		return -1
+	}
+	// site: one inspection of `text` for connective conn, made in f at node at
+	var site func(f *FuncSrc, at ast.Node, text ast.Expr, conn types.Object, foldedAlready bool, allowHelper bool)
+	site = func(f *FuncSrc, at ast.Node, text ast.Expr, conn types.Object, foldedAlready bool, allowHelper bool) {
+		info := f.Pkg.TypesInfo
+		parents := parentMap(f.Body)
+		var subject string
+		var cov struct{ e, n bool }
+		folded := foldedAlready
+		helperParam := -1
+		var follow func(e ast.Expr, depth int)
+		follow = func(e ast.Expr, depth int) {
+			if depth > 6 || e == nil {
+				return
+			}
+			e = unparen(e)
+			switch x := e.(type) {
+			case *ast.CallExpr:
+				name := calleeName(info, x)
+				if strings.HasPrefix(name, "strings.") && len(x.Args) >= 1 {
+					if name == "strings.ToUpper" {
+						folded = true
+					}
+					follow(x.Args[0], depth+1)
+					return
+				}
+				// helper of the package returning the raw text of its argument
+				if fn, _ := typeutil.Callee(info, x).(*types.Func); fn != nil && fn.Pkg() != nil && fn.Pkg().Path() == pkgClause && len(x.Args) == 1 {
+					he, hn := readsSQL(p.SSAFunc(fn))
+					cov.e, cov.n = cov.e || he, cov.n || hn
+					subject = canon(info, x.Args[0])
+				}
+			case *ast.Ident:
+				defs := localDefs(f, x.Name, at.Pos())
+				if len(defs) == 0 {
+					if i := paramIndex(f, x); i >= 0 {
+						helperParam = i
+					}
+				}
+				for _, d := range defs {
+					follow(d.rhs, depth+1)
+				}
+			case *ast.SelectorExpr:
+				if x.Sel.Name != "SQL" {
+					return
+				}
+				isE, isN := fieldSel(info, x, exprSQL), fieldSel(info, x, nexprSQL)
+				holder, ok := unparen(x.X).(*ast.Ident)
+				if !ok || (!isE && !isN) {
+					return
+				}
+				// how was the holder bound?
+				for _, d := range localDefs(f, holder.Name, at.Pos()) {
+					if ta, ok := unparen(d.rhs).(*ast.TypeAssertExpr); ok && ta.Type != nil {
+						subject = canon(info, ta.X)
+						cov.e, cov.n = cov.e || isE, cov.n || isN
+					}
+				}
+				if subject == "" {
+					// bound by a type switch clause
+					for cur := parents[at]; cur != nil; cur = parents[cur] {
+						if ts, ok := cur.(*ast.TypeSwitchStmt); ok {
+							if as, ok := ts.Assign.(*ast.AssignStmt); ok && len(as.Lhs) == 1 {
+								if id, ok := as.Lhs[0].(*ast.Ident); ok && id.Name == holder.Name {
+									if ta, ok := unparen(as.Rhs[0]).(*ast.TypeAssertExpr); ok {
+										subject = canon(info, ta.X) + "@switch" + itoa(int(ts.Pos()))
+										cov.e, cov.n = cov.e || isE, cov.n || isN
+									}
+								}
+							}
+						}
+					}
+				}
+			}
+		}
+		follow(text, 0)
+		if subject == "" && helperParam >= 0 && allowHelper && f.Obj != nil {
+			helpers[f.Obj] = append(helpers[f.Obj], helperUse{helperParam, conn, folded})
+			return
+		}
+		if subject == "" {
+			rs.Unknown(f.Name(), "decision site", at.Pos(), "cannot determine whose SQL text is inspected")
+			return
+		}
+		// sites on the same subject inside the same innermost case clause belong together; a type switch on
+		// the subject itself groups its raw-type clauses
+		key := f.Name() + "|" + subject
+		if !strings.Contains(subject, "@switch") {
+			for cur := parents[at]; cur != nil; cur = parents[cur] {
+				if cc, ok := cur.(*ast.CaseClause); ok {
+					key += "|case@" + itoa(int(cc.Pos()))
+					break
+				}
+			}
+		}
+		g := groups[key]
+		if g == nil {
+			g = &group{f: f, subject: strings.Split(subject, "@switch")[0], pos: at.Pos(), folded: true}
+			groups[key] = g
+		}
+		g.sites++
+		g.expr, g.nm = g.expr || cov.e, g.nm || cov.n
+		g.folded = g.folded && folded
+		if conn == andC {
+			g.and = true
+		} else {
+			g.or = true
+		}
+	}
+	for _, f := range p.FuncsOf(pkgClause) {
+		if f.Parent != nil || f.Obj == nil {
+			continue
+		}
+		info := f.Pkg.TypesInfo
+		for _, call := range callsIn(f) {
+			if calleeName(info, call) != "strings.Contains" || len(call.Args) != 2 {
+				continue
+			}
+			cid := identOf(call.Args[1])
+			if cid == nil || (info.Uses[cid] != andC && info.Uses[cid] != orC) {
+				continue
+			}
+			site(f, call, call.Args[0], info.Uses[cid], false, true)
+		}
+	}
+	// decisions made through a helper: at every call of the helper, on the argument passed
+	if len(helpers) > 0 {
+		for _, f := range p.FuncsOf(pkgClause) {
+			if f.Parent != nil || f.Obj == nil {
+				continue
+			}
+			info := f.Pkg.TypesInfo
+			for _, call := range callsIn(f) {
+				fn, _ := typeutil.Callee(info, call).(*types.Func)
+				for _, hu := range helpers[fn] {
+					if hu.param < len(call.Args) {
+						site(f, call, call.Args[hu.param], hu.conn, hu.folded, false)
+					}
+				}
+			}
+		}
+	}
+	var keys []string
+	for k := range groups {
+		keys = append(keys, k)
+	}
+	sort.Strings(keys)
+	for _, k := range keys {
+		g := groups[k]
+		c.Touch(g.f)
+		rs.Check(g.expr && g.nm, g.f.Name(), "raw unit types of "+g.subject, g.pos, "decides on Expr.SQL and NamedExpr.SQL alike", "the decision whether to parenthesise "+g.subject+" looks for AND/OR in its raw text only for "+rawKinds(g.expr, g.nm)+": the other raw form (named arguments vs ?) of the same unit is rendered without parentheses and neighbouring AND/OR/NOT bind to part of it")
+		rs.Check(g.and && g.or, g.f.Name(), "connectives looked for in "+g.subject, g.pos, "both AND and OR", "the parenthesisation decision for "+g.subject+" looks for only one of AND/OR in the raw text: a unit containing the other connective is not grouped")
+		rs.Check(g.folded, g.f.Name(), "case of the connectives in "+g.subject, g.pos, "looked for in an upper-cased copy of the text", "the parenthesisation decision for "+g.subject+" compares the raw text with the upper-case connectives without upper-casing it first: SQL keywords are case-insensitive, so `a = ? Or b = ?` is not grouped and a neighbouring AND (e.g. the soft-delete filter) binds to its last disjunct only")
+	}
+
+}
